@@ -21,6 +21,9 @@
 
 #include "EbSvtAv1Dec.h"
 #include "EbDecHandle.h"
+#ifdef SVT_AV1_VERIF
+#include "EbVerifHooks.h"
+#endif
 #include "EbDecMemInit.h"
 
 #include "EbObuParse.h"
@@ -880,6 +883,9 @@ void dec_av1_loop_filter_frame_mt(EbDecHandle *dec_handle, EbPictureBufferDesc *
 
                 /* Update LF done map */
                 dec_mt_frame_data1->lf_row_map[sb_row - 1] = 1;
+#ifdef SVT_AV1_VERIF
+                SVT_VERIF_SYNC_STORE(&dec_mt_frame_data1->lf_row_map[sb_row - 1]);
+#endif
             }
             if (sb_row == dec_mt_frame_data->sb_rows - 1) {
                 dec_save_lf_boundary_lines_sb_row(
@@ -887,6 +893,9 @@ void dec_av1_loop_filter_frame_mt(EbDecHandle *dec_handle, EbPictureBufferDesc *
 
                 /* Update LF done map */
                 dec_mt_frame_data1->lf_row_map[sb_row] = 1;
+#ifdef SVT_AV1_VERIF
+                SVT_VERIF_SYNC_STORE(&dec_mt_frame_data1->lf_row_map[sb_row]);
+#endif
             }
         } else
             break;
@@ -1005,6 +1014,9 @@ void svt_cdef_frame_mt(EbDecHandle *dec_handle_ptr, DecThreadCtxt *thread_ctxt) 
             volatile int32_t *start_cdef =
                 (volatile int32_t *)&dec_mt_frame_data->lf_row_map[sb_row + offset];
             while (!*start_cdef)
+#ifdef SVT_AV1_VERIF
+                SVT_VERIF_SPIN(start_cdef)
+#endif
                 ;
             assert(*start_cdef == 1);
 #if MT_WAIT_PROFILE
@@ -1046,6 +1058,9 @@ void svt_cdef_frame_mt(EbDecHandle *dec_handle_ptr, DecThreadCtxt *thread_ctxt) 
             }
             /* Update CDEF done map */
             dec_mt_frame_data1->cdef_completed_for_row_map[sb_row] = 1;
+#ifdef SVT_AV1_VERIF
+            SVT_VERIF_SYNC_STORE(&dec_mt_frame_data1->cdef_completed_for_row_map[sb_row]);
+#endif
 
         } else
             break;
@@ -1063,6 +1078,9 @@ void svt_cdef_frame_mt(EbDecHandle *dec_handle_ptr, DecThreadCtxt *thread_ctxt) 
     if (do_upscale) {
         volatile uint32_t *num_threads_cdefed = &dec_mt_frame_data->num_threads_cdefed;
         while (*num_threads_cdefed != dec_handle_ptr->dec_config.threads)
+#ifdef SVT_AV1_VERIF
+            SVT_VERIF_SPIN(num_threads_cdefed)
+#endif
             ;
     }
 }
@@ -1231,6 +1249,9 @@ void dec_av1_loop_restoration_filter_frame_mt(EbDecHandle *dec_handle, DecThread
             volatile int32_t *start_lr =
                 (volatile int32_t *)&dec_mt_frame_data->cdef_completed_for_row_map[sb_row];
             while (!*start_lr)
+#ifdef SVT_AV1_VERIF
+                SVT_VERIF_SPIN(start_lr)
+#endif
                 ;
 
             LrCtxt *lr_ctxt = (LrCtxt *)dec_handle->pv_lr_ctxt;
@@ -1291,6 +1312,9 @@ void dec_av1_loop_restoration_filter_frame_mt(EbDecHandle *dec_handle, DecThread
 
             /* Update LR done map */
             dec_mt_frame_data->lr_row_map[sb_row] = 1;
+#ifdef SVT_AV1_VERIF
+            SVT_VERIF_SYNC_STORE(&dec_mt_frame_data->lr_row_map[sb_row]);
+#endif
         } else
             break;
     }
@@ -1310,6 +1334,9 @@ void dec_av1_loop_restoration_filter_frame_mt(EbDecHandle *dec_handle, DecThread
     volatile uint32_t *num_threads_lred = &dec_mt_frame_data->num_threads_lred;
     while (*num_threads_lred != dec_handle->dec_config.threads &&
            EB_FALSE == dec_mt_frame_data->end_flag)
+#ifdef SVT_AV1_VERIF
+        SVT_VERIF_SPIN(num_threads_lred)
+#endif
         ;
 }
 
@@ -1321,6 +1348,9 @@ void *dec_all_stage_kernel(void *input_ptr) {
         &dec_handle_ptr->main_frame_buf.cur_frame_bufs[0].dec_mt_frame_data;
     volatile EbBool *start_thread = (volatile EbBool *)&dec_handle_ptr->start_thread_process;
     while (*start_thread == EB_FALSE)
+#ifdef SVT_AV1_VERIF
+        SVT_VERIF_SPIN(start_thread)
+#endif
         ;
 
     while (1) {
